@@ -62,7 +62,15 @@ def run_one(prop, tier, qname, out):
         ctx = Q.Ctx(path, tier, WORK)
         for name, qtier, fn in registry(tier).get(prop, []):
             if name == qname:
-                rec = fn(ctx); break
+                rec = fn(ctx)
+                if rec.get("verdict") == "inconclusive" and "reachability witness is unsat" in rec.get("why", ""):
+                    # the step bound was sized from a path shorter than the uncontended run: decide again with the wider bound
+                    import graph
+                    first = {k: rec.get(k) for k in ("steps", "solver_s", "why")}
+                    graph.WIDE = True
+                    rec = fn(ctx)
+                    rec["first_attempt_vacuous"] = first
+                break
         else:
             rec = {"name": qname, "verdict": "inconclusive", "why": "unknown query"}
     except Exception as e:
